@@ -270,6 +270,8 @@ def run(repo, rep):
                         srt_names.append(norm_k(a_.prov))
                 if len(srt_names) == nk:
                     keys = srt_names
+                elif srt_names and pr.assumed('max_seq_len <', True):
+                    keys = srt_names + keys[len(srt_names):]      # a prefix of the sorted keys is shown
             # on a path that assumes the dict is longer than max_seq_len a prefix of the pairs is shown (how long, and the notice: C10)
             lengths = range(nk, -1, -1) if pr.assumed('max_seq_len <', True) else [nk]
             for seq in D.all_layouts(t):
